@@ -80,6 +80,9 @@ func reportSuite(c *Check, rule string, rs []*suiteResult, proj func(outcome) st
 		for _, sr := range groups[op] {
 			tv := sr.TV
 			c.Note("models", tv.Name)
+			if tv.Skipped != "" {
+				continue
+			}
 			if tv.EmitErr != "" {
 				und = append(und, tv.Name+": emitter not evaluable: "+tv.EmitErr)
 				continue
